@@ -19,5 +19,8 @@ C12_NoDoubleRelease == J => \A o \in Objs : Final(o) # "BAD:double-release"
 C12_AppHeldStable   == J => \A o \in Objs : Final(o) \notin {"BAD:released-while-held", "BAD:changed-while-held", "BAD:handed-out-while-owned", "BAD:held-after-release"}
 \* "the library never ... writes a message after releasing it"
 C12_NoUseAfterRelease == J => \A o \in Objs : Final(o) # "BAD:written-after-release"
+\* "the library never reads a message after releasing it": every copy the retransmission sweep makes of a pending request while
+\* the acknowledgement path gives that request back is the request, byte for byte
+C12_CopiesIntact == J => (T.mode = "retx" => T.garbled = 0)
 C12_Ran == J => (T.done /\ Len(T.log) > 0)
 =============================================================================
